@@ -272,6 +272,34 @@ def run_real(case: dict):
             finally:
                 shutil.rmtree(d, ignore_errors=True)
             return canon_seg_graph(out, tracks.graph.nodes, tracks.graph.edges), {"out": out, "graph": tracks.graph}
+        if case.get("tif_file"):
+            # the segmentation given as the PATH of one TIFF stack, a file name that was imported
+            # before with other content (a label image corrected and saved under the same name)
+            import os
+            import shutil
+            from pathlib import Path
+
+            import tifffile
+            from funtracks.import_export import CSVTracksBuilder
+            d = Path(f"/tmp/ft_lb_same_{os.getpid()}")
+            d.mkdir(exist_ok=True)
+            f = d / "seg.tif"
+            try:
+                tifffile.imwrite(f, np.flip(a, axis=-1).copy())
+                try:
+                    b0 = CSVTracksBuilder()
+                    b0.prepare(df)
+                    b0.build(df, f)
+                except Exception:  # noqa: BLE001  (the earlier content need not fit the table)
+                    pass
+                tifffile.imwrite(f, a)
+                b = CSVTracksBuilder()
+                b.prepare(df)
+                tracks = b.build(df, f)
+                out = np.asarray(tracks.segmentation)
+            finally:
+                shutil.rmtree(d, ignore_errors=True)
+            return canon_seg_graph(out, tracks.graph.nodes, tracks.graph.edges), {"out": out, "graph": tracks.graph}
         tracks = tracks_from_df(df, a.copy())
         out = np.asarray(tracks.segmentation)
         return canon_seg_graph(out, tracks.graph.nodes, tracks.graph.edges), {
@@ -710,6 +738,8 @@ def gen_relabel(rng: random.Random, public: bool, illformed: bool = False) -> di
                 dask=rng.random() < 0.3)
     if tif:
         case["tif_folder"] = True
+    elif public and dtype != "uint64" and len(shape) >= 3 and rng.random() < 0.06:
+        case["tif_file"] = True
     if not public and rng.random() < 0.15:
         case["layout"] = "swapped"
     if illformed and rows and not public:
@@ -866,11 +896,13 @@ def shrink(case: dict, still: Callable[[dict], bool], budget: int = 400) -> dict
     cur = case
     n = 0
     progress = True
-    while progress and n < budget:
+    import time as _t
+    t0_ = _t.time()   # wall-clock limit: a change that makes every evaluation slow must not stall the check
+    while progress and n < budget and _t.time() - t0_ < 60:
         progress = False
         for cand in candidates(cur):
             n += 1
-            if n >= budget:
+            if n >= budget or _t.time() - t0_ >= 60:
                 break
             try:
                 ok = still(cand)
@@ -911,6 +943,17 @@ def nontrivial(case: dict, out) -> bool:
 
 def _shard(args) -> Result:
     prop, seed, counts, intensify, first = args
+    try:
+        # a change that sizes a table by the largest LABEL VALUE asks for terabytes on the large ids
+        # generated here; without a limit one C call fills the machine's memory (no watchdog can
+        # interrupt it). With the limit it is a MemoryError, reported like any other exception.
+        import resource
+        lim = 6 << 30
+        soft, hard = resource.getrlimit(resource.RLIMIT_AS)
+        if soft == resource.RLIM_INFINITY or soft > lim:
+            resource.setrlimit(resource.RLIMIT_AS, (lim, hard))
+    except Exception:  # noqa: BLE001
+        pass
     rng = random.Random(seed)
     res = Result(rule=RULE[prop])
     pending: list[tuple[dict, str]] = []  # (case, real canonical)
@@ -930,14 +973,20 @@ def _shard(args) -> Result:
         plan += [lambda: gen_relabel(rng, public=False, illformed=True)] * counts["rs_ill"]
         plan += [lambda: gen_relabel(rng, public=True)] * counts["imp"]
 
+    hangs = 0
+    import time as _t
+    t_shard = _t.time()
     for mk in plan:
+        if res.failures and _t.time() - t_shard > 300:
+            res.count("shard-ended-early(failures-recorded,slow)")
+            break
         case = mk()
         key = case["fn"] + ("+multiseg" if case.get("multiseg") else "")
         res.count(f"cases:{key}")
         res.count(f"ndim:{len(case['shape'])}")
         res.count(f"frames:{case['shape'][1] if case.get('multiseg') else case['shape'][0]}")
         res.count(f"dtype:{case['dtype']}")
-        for tag in ("layout", "tif_folder", "pre_edges"):
+        for tag in ("layout", "tif_folder", "tif_file", "pre_edges"):
             if case.get(tag) not in (None, "C", False):
                 res.count(f"variant:{tag}")
         if case.get("illformed"):
@@ -976,6 +1025,10 @@ def _shard(args) -> Result:
             res.failures.append(Failure("hang", prop, f"{prop}|{case['fn']}|hang",
                                         "real code did not return within the watchdog time",
                                         {"case": case}))
+            hangs += 1
+            if hangs >= 2:
+                res.count("shard-ended-after-two-hangs")
+                break   # the violation is recorded; do not wait 20 s for each further case
             continue
         if r["status"] == "exc":
             res.count(f"real-raised:{case['fn']}:{r['exc']}")
